@@ -182,6 +182,9 @@ func (db *MultiBucketBackend) getBucketWithFilePrefixLocked(bucket string, prefi
 		}
 
 		if entry.IsDir() {
+			if !holdsObject(db.bucketFs, filepath.FromSlash(path.Join(bucketPath, entry.Name()))) {
+				continue
+			}
 			response.AddPrefix(path.Join(prefixPath, entry.Name()) + "/")
 
 		} else {
@@ -287,7 +290,7 @@ func (db *MultiBucketBackend) DeleteBucket(name string) (rerr error) {
 		return err
 	}
 
-	if len(entries) > 0 {
+	if len(entries) > 0 && holdsObject(db.bucketFs, name) {
 		// This check is slightly racy. If another service outside gofakes3
 		// changes the filesystem between this check and the call to Remove,
 		// the bucket may be deleted even though there are items in it. You
